@@ -41,6 +41,7 @@ def run(F, rep, tier):
     guard_location(F, rep)
     name_span(F, rep)
     parse_error_dropped(F, rep)
+    child_span(F, rep)
     import c20
     c20.prelude_yields(F, rep)
 
@@ -738,3 +739,81 @@ def _is_err_wild(p):
 def _returns_err(e):
     import tc
     return tc.is_err_value(e)
+
+
+def child_span(F, rep, rule="CHILD-SPAN"):
+    """a call's argument (a blob literal's field value) is checked against *its own* expectation - the parameter at its
+    position, the field of its name.  A mismatch is then the argument's: the check carries a span taken from that child,
+    not the span of the enclosing call (which is where the call starts - lines above, for arguments written one per line)"""
+    TC = "sylt_compiler::typechecker::TypeChecker::"
+    n = 0
+    for fname in ("expression", "statement"):
+        fn = F.fn(TC + fname)
+        body = fn_body(fn)
+        lets = {}
+        for st in nodes(body, "Let"):
+            if st.get("init") is not None:
+                for b in pat_bindings(st["pat"]):
+                    lets[b["hid"]] = st["init"]
+        for lp in nodes(body, "ForLoop"):
+            bound = {b["hid"]: b["name"] for b in pat_bindings(lp["pat"])}
+            # the child: a loop variable handed to self.expression(..) whose type lands in a local
+            kids = {}
+            for st in nodes(lp["body"], "Let"):
+                init = st.get("init")
+                for c in nodes(init, "MethodCall") if init is not None else ():
+                    if callee(c) == TC + "expression" and c["args"]:
+                        x = peel(c["args"][0])
+                        if x.get("k") == "Path" and x.get("res") == "Local" and x["hid"] in bound:
+                            for b in pat_bindings(st["pat"]):
+                                kids[b["hid"]] = x["hid"]
+            if not kids:
+                continue
+            others = set(bound) - set(kids.values())
+            k = 0
+            for c in nodes(lp["body"], "MethodCall"):
+                if callee(c) != TC + "unify" or len(c["args"]) < 4:
+                    continue
+                tys = c["args"][2:4]
+                hs = [{p_["hid"] for p_ in nodes(t, "Path") if p_.get("res") == "Local"} for t in tys]
+                child = None
+                for i in (0, 1):
+                    direct = [h for h in hs[i] if h in kids]
+                    if direct and (hs[1 - i] & others):
+                        child = kids[direct[0]]
+                if child is None:
+                    continue
+                n += 1
+                k += 1
+                sp_locals = set()
+                work = [c["args"][0]]
+                seen = set()
+                while work:
+                    e = work.pop()
+                    for p_ in nodes(e, "Path"):
+                        if p_.get("res") == "Local" and p_["hid"] not in seen:
+                            seen.add(p_["hid"])
+                            sp_locals.add(p_["hid"])
+                            if p_["hid"] in lets:
+                                work.append(lets[p_["hid"]])
+                ok = child in sp_locals
+                arm = _enclosing_variant(body, lp)
+                rep.ob(rule, "%s|%s|%s-against-%s#%d" % (fname, arm, bound[child], "+".join(sorted(bound[h] for h in others & (hs[0] | hs[1]))), k),
+                       ok, ("the check of `%s` against its own expectation is located at `%s`" % (bound[child], bound[child])) if ok else
+                       ("TypeChecker::%s checks each `%s` of %s against its own expectation but locates a mismatch at `%s`, not at "
+                        "the child: for `f(\\n 1,\\n \"a\",\\n)` the error names the line where the call starts, not the line of the "
+                        "offending argument" % (fname, bound[child], arm, pp(c["args"][0]))), line_of(c))
+    rep.floor(rule, "children checked against a positional/named expectation", n, 2)
+
+
+def _enclosing_variant(body, target):
+    best = "?"
+    for m in nodes(body, "Match"):
+        for a in m["arms"]:
+            if any(x is target for x in nodes(a["body"], "ForLoop")):
+                from hir import pat_alternatives, pat_variant
+                for alt in pat_alternatives(a["pat"]):
+                    v = pat_variant(alt)
+                    if v and best == "?":
+                        best = last(v)
+    return best
